@@ -95,6 +95,21 @@ def _build(rnd, big, with_seq, on_chunk):
                 txs.append(mk_tx(blocks, st, cds, None, parent=parent, transcript_id="tx%d_%d" % (k, t), **kw))
             genes.append(GeneInterval(txs, gene_id="gid%d" % k, gene_symbol="sym%d" % (k % 3), locus_tag="lt%d" % k,
                                       parent_or_seq_chunk_parent=parent))
+            if rnd.random() < 0.12:
+                # a second locus that carries an IDENTICAL isoform (same structure and attributes, hence the same
+                # interval identifier) next to one of its own -- e.g. a read-through locus
+                try:
+                    t0 = txs[0]
+                    twin = mk_tx([list(b) for b in zip(t0._genomic_starts, t0._genomic_ends)], t0.strand.to_symbol(),
+                                 [list(b) for b in zip(t0.cds._genomic_starts, t0.cds._genomic_ends)] if t0.is_coding else None,
+                                 None, parent=parent, transcript_id=t0.transcript_id)
+                    own = mk_tx([[t0.start, t0.end]], t0.strand.to_symbol(), None, None, parent=parent,
+                                transcript_id="own%d" % k)
+                    if twin.guid == t0.guid:
+                        genes.append(GeneInterval([twin, own], gene_id="rt%d" % k, gene_symbol="rt%d" % k,
+                                                  locus_tag="rt%d" % k, parent_or_seq_chunk_parent=parent))
+                except Exception:
+                    pass
         elif kind == "feature":
             fs = [FeatureInterval([s], [e], Strand.PLUS, feature_name="fn%d" % k, parent_or_seq_chunk_parent=parent)]
             if e - s > 4 and rnd.random() < 0.5:
@@ -213,7 +228,13 @@ def _events(args):
                 op, ar = "guids", [ids[m.guid] for m in pick]
                 call = lambda: cur.query_by_guids([m.guid for m in pick])  # noqa
             elif r < 0.9:
-                kids = [c for m in allm for c in m.iter_children() if rnd.random() < 0.4]
+                # (an interval identifier that occurs under two members is never asked for: which member answers for it is
+                # not specified; every OTHER identifier of such a collection must be answered as usual)
+                cnt = {}
+                for m in allm:
+                    for c in m.iter_children():
+                        cnt[c.guid] = cnt.get(c.guid, 0) + 1
+                kids = [c for m in allm for c in m.iter_children() if cnt[c.guid] == 1 and rnd.random() < 0.4]
                 op = rnd.choice(["iguids", "txguids", "featguids"])
                 ar = [ids[c.guid] for c in kids]
                 fn = {"iguids": "query_by_interval_guids", "txguids": "query_by_transcript_interval_guids",
